@@ -360,3 +360,43 @@ def setup_repo_import() -> None:
     import logging
 
     logging.disable(logging.WARNING)
+
+
+# ---------------------------------------------------------------- trace validation
+
+
+def judge_traces(module: str, traces: list, *, batch: int = 2000, modes=("run", "judge"), workers: int = 8):
+    """Validate recorded traces with a Trace*.tla module, many per JVM start.
+
+    The module reads the JSON list from IOEnv.TRACE_FILE, explores every (trace, mode) and
+    prints one verdict record [tid, mode, <clause> |-> BOOLEAN ...] per pair.  Returns
+    ([{mode: verdict}], total_states_generated); a missing verdict is a machinery error
+    (verdicts are total)."""
+    if not traces:
+        return [], 0
+    WORK.mkdir(exist_ok=True)
+    out: list = []
+    states = 0
+    for s in range(0, len(traces), batch):
+        part = traces[s : s + batch]
+        tf = WORK / f"trace-{module}-{os.getpid()}-{s}.json"
+        tf.write_text(json.dumps(part))
+        try:
+            r = tlc(module, f"{module}.cfg", workers=workers, env={"TRACE_FILE": str(tf)},
+                    coverage=False, tag=f"{module}-{s}")
+        finally:
+            tf.unlink(missing_ok=True)
+        if r.violated or not r.ok:
+            raise MachineryError(f"{module} failed: {r.stdout[-2500:]}")
+        states += r.generated
+        verd: dict = {}
+        for v in r.printed:
+            verd[(v["tid"], v.get("mode", "run"))] = v
+        for i in range(1, len(part) + 1):
+            row = {}
+            for m in modes:
+                if (i, m) not in verd:
+                    raise MachineryError(f"{module}: no verdict for trace {s + i} mode {m}\n{r.stdout[-1500:]}")
+                row[m] = verd[(i, m)]
+            out.append(row)
+    return out, states
